@@ -233,6 +233,9 @@ type mmstate = { mutable live : Model.state; mutable nreq : int; style : string;
                  mutable fl : fl_state; mutable sizes : (int * (int * int)) list }
 let mms : (string, mmstate) Hashtbl.t = Hashtbl.create 7
 
+let sat_limit = 48
+let dd_top = function T _ -> 0 | N (k, _) -> int_of_nat k
+
 (* ---- audit: parse the implementation's dump and run the extracted checker ---- *)
 let clause_name = function
   | 1 -> "duplicate-node" | 2 -> "transparent-node" | 3 -> "redundant-node"
@@ -573,6 +576,13 @@ let rec run toks =
           (match op with
            | "post" -> post_dd szs k fs.rule fm.rule fr.rule ts tm
            | "pre" -> pre_dd szs k fs.rule fm.rule fr.rule ts tm
+           | "reach_sat" when Array.fold_left ( * ) 1 fs.sizes <= sat_limit ->
+             (* the model's own saturation (SatDDP.sat_dd_is_reach_dd: same diagram as reach_dd) *)
+             print_endline "#thm model-saturation(sat_dd) monolithic";
+             (match sat_dd szs k fs.rule fm.rule fr.rule ts [tm] with Some t -> t | None -> raise Unsupported)
+           | "reach_fs" when Array.fold_left ( * ) 1 fs.sizes <= sat_limit ->
+             print_endline "#thm model-frontier(reach_fs_dd)";
+             (match reach_fs_dd szs k fs.rule fm.rule fr.rule ts tm with Some t -> t | None -> raise Unsupported)
            | "reach_fs" | "reach_nofs" | "reach_sat" ->
              (match reach_dd szs k fs.rule fm.rule fr.rule ts tm with Some t -> t | None -> raise Unsupported)
            | _ ->
@@ -834,7 +844,15 @@ let rec run toks =
            apply2 (szf fm) (scalar2 OUnion (z_of_int 1) (z_of_int 1)) fm.rule fm.rule fm.rule l2 O acc t)
            (T Z0) evl in
        let k = nat_of_int (Array.length fs.sizes) in
-       (match reach_dd (szf fs) k fs.rule fm.rule fr.rule ts un with
+       let res =
+         if Array.fold_left ( * ) 1 fs.sizes <= sat_limit then begin
+           (* saturation over the separate events, top level first; by
+              SatDDP.sat_dd_is_reach_dd this is the diagram reach_dd builds for the union *)
+           let evs = List.sort (fun a b -> compare (dd_top b) (dd_top a)) (List.map snd evl) in
+           print_endline (Printf.sprintf "#thm model-saturation(sat_dd) events=%d" (List.length evs));
+           sat_dd (szf fs) k fs.rule fm.rule fr.rule ts evs
+         end else reach_dd (szf fs) k fs.rule fm.rule fr.rule ts un in
+       (match res with
         | Some t -> set_edge r fn t; show r
         | None -> raise Unsupported))
   | "iter" :: a :: mask ->
